@@ -717,7 +717,8 @@ def rule_r4(repo: Repo, res: Result) -> None:
             if not any(implies(f, atom(key)) for key in present):
                 missing.append(x)
         ok = not missing
-        res.add("C04.R4", repo.key(e.fi, stmt_of(e.node)) + f" [edge end from imported name: {show(ends[0], 50)}]", ok, "edges to imported names are only added between existing nodes" if ok else f"`{norm(e.node, 60)}` adds an edge whose end `{show(missing[0], 80)}` comes from an imported name without testing that it is a node: networkx creates the missing node, so functions / classes / unresolved names become modules", where(e.fi, e.node), kind="dominance")
+        kinds_ = sorted({s_[0] for x in ends for s_ in names.sources(x)})
+        res.add("C04.R4", repo.key(e.fi, stmt_of(e.node)) + f" [edge end from imported name: {', '.join(kinds_)}]", ok, "edges to imported names are only added between existing nodes" if ok else f"`{norm(e.node, 60)}` adds an edge whose end `{show(missing[0], 80)}` comes from an imported name without testing that it is a node: networkx creates the missing node, so functions / classes / unresolved names become modules", where(e.fi, e.node), kind="dominance")
     # ---- the hierarchy of every scanned module: get_parent_modules(module) + [module]
     def chain_of(pos):
         """(module symbol, 'full' | 'parents') if the position walks the ancestor chain of a scanned module."""
